@@ -1074,8 +1074,8 @@ fn positions(ex: &Exec, opname: &str, quick: bool, rng: &mut ChaChaRng) -> Vec<u
     // heavy operations (a scan re-hashes note commitment trees: 50-130 ms a run) get fewer positions in quick
     let heavy = opname.starts_with("scan");
     let (cap_w, cap_r, interior) = match (quick, heavy) {
-        (true, true) => (50, 15, 48),
-        (true, false) => (120, 50, 64),
+        (true, true) => (10, 5, 16),
+        (true, false) => (30, 15, 16),
         (false, true) => (500, 200, 400),
         (false, false) => (1500, 800, 1000),
     };
@@ -1192,13 +1192,13 @@ fn run_reader_group(rn: &mut Runner, s: &State, op: &OpDef, kind: &str, quick: b
     let mut set = BTreeSet::new();
     let mut b = bounds.clone();
     b.shuffle(rng);
-    for k in b.into_iter().take(if quick { 14 } else { 400 }) {
+    for k in b.into_iter().take(if quick { 8 } else { 400 }) {
         set.insert(k + 1);
         if k >= 1 {
             set.insert(k);
         }
     }
-    for _ in 0..(if quick { 10 } else { 300 }) {
+    for _ in 0..(if quick { 6 } else { 300 }) {
         if m > 0 {
             set.insert(rng.gen_range(1..=m));
         }
@@ -1264,11 +1264,13 @@ fn run_group(rn: &mut Runner, s: &State, op: &OpDef, quick: bool, rng: &mut ChaC
         Some(k) => vec![k],
         None => positions(&reference, &op.name, quick, rng),
     };
+    // quick: the failed call is repeated after every third (scans: fourth) faulted execution
+    let retry_every = if !quick || only_k.is_some() { 1 } else if op.name.starts_with("scan") { 4 } else { 3 };
     for (i, k) in ks.iter().enumerate() {
         rn.restore(s, true);
         let crash = i % 4 == 0;
         let ex = rn.exec(s, op, "fault", *k, false, crash, &pre);
-        if ex.res != "ok" || reference.res != "ok" {
+        if (ex.res != "ok" || reference.res != "ok") && i % retry_every == 0 {
             // the same call again on the same database, no fault
             rn.exec(s, op, "retry", 0, false, false, &pre);
         }
@@ -1292,10 +1294,13 @@ fn main() {
     let mut out = NdjsonWriter::create(&args[1]);
     let t0 = std::time::Instant::now();
 
+    // quick: the journal mode of each wallet rotates with the seed (seed 1: A rollback journal, B WAL, M rollback
+    // journal); thorough: these fixed modes plus, below, each wallet in the other mode
+    let (wa, wb, wm) = if quick { (seed % 2 == 0, seed % 2 == 1, (seed / 2) % 2 == 1) } else { (false, true, false) };
     let states = vec![
-        build_state(&work, "A", seed.wrapping_mul(1000) + 1, false, false, 30, 10, false),
-        build_state(&work, "B", seed.wrapping_mul(1000) + 2, true, true, 28, 12, false),
-        build_state(&work, "M", seed.wrapping_mul(1000) + 3, true, false, 20, 14, true),
+        build_state(&work, "A", seed.wrapping_mul(1000) + 1, false, wa, 30, 10, false),
+        build_state(&work, "B", seed.wrapping_mul(1000) + 2, true, wb, 28, 12, false),
+        build_state(&work, "M", seed.wrapping_mul(1000) + 3, true, wm, 20, 14, true),
     ];
     let mut states = states;
     if !quick {
@@ -1343,9 +1348,23 @@ fn main() {
     let reader_ops = |s: &State| -> Vec<&'static str> {
         if s.has_migration { vec![] } else if s.wal { vec!["scan3", "truncate", "tip_up"] } else { vec!["scan3", "truncate"] }
     };
+    // quick: operations other than scans / truncations / rewinds / locks / tip updates run on one of the
+    // wallets A, B per run, chosen by the seed (every operation runs on at least one pre-state in every run)
+    const ON_ALL: &[&str] = &["scan1", "scan3", "scan12", "truncate", "rewind", "lock3", "lock_fail", "tip_up", "subtree_roots_gap", "mig_replace"];
+    let only_set = only.is_some();
+    let rotated_out = |s: &State, opname: &str| -> bool {
+        if !quick || only_set || s.has_migration || ON_ALL.contains(&opname) {
+            return false;
+        }
+        let h = blake2b_simd::Params::new().hash_length(8).hash(opname.as_bytes());
+        let pick = (u64::from_le_bytes(h.as_bytes().try_into().unwrap()).wrapping_add(seed)) % 2;
+        (s.name == "A") != (pick == 0)
+    };
     for (si, s) in states.iter().enumerate() {
         for op in ops_for(s) {
-            all.push((si, op.name.clone()));
+            if !rotated_out(s, &op.name) {
+                all.push((si, op.name.clone()));
+            }
         }
         for o in reader_ops(s) {
             all.push((si, format!("{o}@summary")));
